@@ -472,6 +472,9 @@ func main() {
 	}
 	g := &gen{r: e.Rng}
 	n := e.N(260, 6000)
+	if e.Search && !e.Thorough() {
+		n = 4 * 260 // search after a broken proof/tie: a few times the quick budget per seed
+	}
 	for i := 0; i < n; i++ {
 		runCase(e, m, g.kase(i%5 == 4))
 	}
